@@ -7,6 +7,7 @@ import WP.Model.PinoOffset
 import WP.Model.Sdk
 import WP.Model.TransferFee
 import WP.Model.Setup
+import WP.Model.SdkSwap
 import WP.Gen.AnchorSpecs
 /-
   Line-protocol driver: one operation per line on stdin, one canonical result line on stdout.
@@ -262,6 +263,24 @@ def showSdk (r : R String) : String :=
   | .ok s => "ok " ++ s
   | .error .Panic => "err Panic"
   | .error _ => "err sdk"
+
+/-- insertion of a start into an ascending list without duplicates (the glue's stand-in for `sort_by_key`) -/
+def insAsc (x : Int) : List Int → List Int
+  | [] => [x]
+  | y :: r => if x < y then x :: y :: r else if x = y then y :: r else y :: insAsc x r
+
+/-- `H sdkq amount limit ein dir n start*`: what the SDK's `compute_swap` returns for this swap on the current
+    state (read-only): `ok tokenA tokenB tradeFee`, `err sdk`, `err Panic` -/
+def sdkqLine (s : HistState) (t : List String) : Option String :=
+  match t with
+  | amt :: lim :: ein :: dir :: _n :: starts => do
+    let ein ← b01 ein
+    let dir ← b01 dir
+    let starts ← starts.mapM String.toInt?
+    let asc := starts.foldr insAsc []
+    let r := sdkSwap s.pool s.ticks asc (← amt.toNat?) (← lim.toNat?) ein dir s.now s.af SWAP_FUEL
+    pure (showSdk (r.map fun x => s!"{x.1} {x.2.1} {x.2.2}"))
+  | _ => none
 
 /-- the SDK functions (C20) -/
 def sdkLine (t : List String) : Option String :=
@@ -605,6 +624,11 @@ partial def loop (h : IO.FS.Stream) (out : IO.FS.Stream) (hist : Option HistStat
     match hist with
     | none => out.putStrLn "bad-op"
     | some st => out.putStrLn (((xposLine st rest).getD "bad-op") ++ " | " ++ digest st)
+    loop h out hist bm dyn snap
+  | "H" :: "sdkq" :: rest =>
+    match hist with
+    | none => out.putStrLn "bad-op"
+    | some st => out.putStrLn (((sdkqLine st rest).getD "bad-op") ++ " | " ++ digest st)
     loop h out hist bm dyn snap
   | "H" :: "xswap" :: rest =>
     match hist with
